@@ -117,10 +117,27 @@ func c16Check(c svcCfg) [][2]string {
 			m1.SetAutoAccept(wantAuto)
 			simrt.Quiesce()
 		}
+		// a second service is announced alongside: what is read back for one must not depend on the other
+		const otherSKI = "0therservice0000000000000000000000000000"
+		m3 := mdns.NewMDNS(otherSKI, "otherbrand", "othermodel", "othertype", "otherserial", []api.DeviceCategoryType{3}, "other-id", "svc-3", 4713, nil, mdns.MdnsProviderSelectionGoZeroConfOnly)
+		m3.SetAutoAccept(!c.Auto)
+		_ = m3.Start(&rec{name: "m3"})
+		simrt.Quiesce()
 		m2 := mdns.NewMDNS("browser-ski", "b", "m", "t", "s", nil, "browser", "svc-2", 4712, nil, mdns.MdnsProviderSelectionGoZeroConfOnly)
 		r2 := &rec{name: "m2"}
 		_ = m2.Start(r2)
 		simrt.Quiesce()
+		if c.SKI != otherSKI {
+			var o *api.MdnsEntry
+			if l := r2.last(); l != nil {
+				o = l[otherSKI]
+			}
+			if o == nil {
+				fail("C16|other-service-not-visible", "the browsing manager lost the second announced service")
+			} else if o.Ski != otherSKI || o.Identifier != "other-id" || o.Brand != "otherbrand" || o.Model != "othermodel" || o.Serial != "otherserial" || o.Port != 4713 || o.Register != !c.Auto {
+				fail("C16|other-service-mixed-up", "the second announced service is read back as ski=%q id=%q brand=%q model=%q serial=%q port=%d register=%v", o.Ski, o.Identifier, o.Brand, o.Model, o.Serial, o.Port, o.Register)
+			}
+		}
 		// what was announced (TXT handed to the provider's Register call, latest)
 		regs := fakezeroconf.TheEther().Registered
 		var txt []string
